@@ -238,6 +238,10 @@ func (p *Prog) Methods(sp *ssa.Package, typ string) []*ssa.Function {
 		if f.Parent() == nil && f.Pkg == sp && f.Signature.Recv() == nil && f.Object() != nil && !f.Object().Exported() && len(f.Params) > 0 && rawTypeName(f.Params[0].Type()) == canonType(n.Obj().Name()) {
 			out = append(out, f)
 		}
+		// unexported methods of a grouping struct embedded in the type
+		if f.Parent() == nil && f.Pkg == sp && f.Signature.Recv() != nil && f.Object() != nil && !f.Object().Exported() && rawTypeName(f.Signature.Recv().Type()) != canonType(n.Obj().Name()) && typeName(f.Signature.Recv().Type()) == canonType(n.Obj().Name()) {
+			out = append(out, f)
+		}
 	}
 	sort.Slice(out, func(i, j int) bool { return out[i].Name() < out[j].Name() })
 	return out
